@@ -97,6 +97,10 @@ def make_plugin(kind, hooks, idx, log, raise_at=None, exc="Boom"):
     if style == 4 and ns:
         # a plugin object that is falsy (an empty container that is also a plugin) is a plugin all the same
         return type("P%d" % idx, (list,) + base, ns)()
+    if _STYLE[0] % 7 == 3 and ns:
+        # plugin objects that compare equal to one another (a value-like __eq__) are still separate plugins
+        ns = dict(ns, __eq__=lambda self, other: hasattr(other, "__class__") and type(other).__name__.startswith("P"),
+                  __hash__=lambda self: 7)
     if style == 0 or not ns:
         return type("P%d" % idx, base, ns)()
     if style == 1:
@@ -176,7 +180,8 @@ def run(ctx):
             outcome = None
             ctor_log_len = 0
             try:
-                c = wsdlkit.client(w, plugins=plugins, transport=tr, nosend=nosend, retxml=retxml, faults=faults)
+                c = wsdlkit.client(w, plugins=plugins, transport=tr, nosend=nosend, retxml=retxml, faults=faults,
+                                   prettyxml=rng.random() < 0.3)
                 ctor_log_len = len(log)
                 try:
                     r = c.service.f("x")
